@@ -83,6 +83,8 @@ impl Publisher for PublisherService {
         let topic_name = parser::parse_topic_name(&request.topic)?;
 
         let topic = self.get_topic_internal(&topic_name).await?;
+        #[cfg(deltio_verif)]
+        crate::verif::point("api.publisher.after_get_topic").await;
 
         let messages = request
             .messages
@@ -121,6 +123,8 @@ impl Publisher for PublisherService {
         let topic_name = parser::parse_topic_name(&request.topic)?;
 
         let topic = self.get_topic_internal(&topic_name).await?;
+        #[cfg(deltio_verif)]
+        crate::verif::point("api.publisher.after_get_topic").await;
 
         log::debug!("{}: getting topic {}", &topic_name, start);
         Ok(Response::new(Topic {
@@ -190,6 +194,8 @@ impl Publisher for PublisherService {
         let paging = parser::parse_paging(request.page_size, &request.page_token)?;
 
         let topic = self.get_topic_internal(&topic_name).await?;
+        #[cfg(deltio_verif)]
+        crate::verif::point("api.publisher.after_get_topic").await;
 
         let page = topic
             .list_subscriptions(paging)
@@ -235,6 +241,8 @@ impl Publisher for PublisherService {
 
         let topic_name = parser::parse_topic_name(&request.topic)?;
         let topic = self.get_topic_internal(&topic_name).await?;
+        #[cfg(deltio_verif)]
+        crate::verif::point("api.publisher.after_get_topic").await;
 
         topic.delete().await.map_err(|e| match e {
             DeleteError::Closed => conflict(),
